@@ -24,8 +24,13 @@ def tidy_input_string(s: str) -> str:
     return ''.join(t).lower().replace('_', '')
 
 
-@functools.lru_cache(CACHE_SIZE)
 def str_to_bitstore(s: str) -> BitStore:
+    # The bits a string stands for can depend on these options, so they have to be part of the cache key.
+    return _str_to_bitstore(s, bitstring.options.lsb0, bitstring.options.mxfp_overflow)
+
+
+@functools.lru_cache(CACHE_SIZE)
+def _str_to_bitstore(s: str, lsb0: bool, mxfp_overflow: str) -> BitStore:
     _, tokens = bitstring.utils.tokenparser(s)
     bs = BitStore()
     for token in tokens:
